@@ -9,7 +9,10 @@ D=$R/$P
 export CARGO_NET_OFFLINE=true RUST_BACKTRACE=0 CARGO_TARGET_DIR=$D/target
 cd $D || exit 2
 git diff -- src Cargo.toml > $R/$P.check.diff
-if ! diff -q $R/$P.check.diff $D/seed_out/patch.diff >/dev/null; then echo "NOTE: patch.diff differs from worktree diff; using worktree diff"; cp $R/$P.check.diff $D/seed_out/patch.diff; fi
+# the delivered patch.diff is what gets tested and stored: the worktree is reset to HEAD and the patch applied afresh
+# (worktrees of one repository share `git stash`, so a worktree may hold another agent's change)
+if ! diff -q $R/$P.check.diff $D/seed_out/patch.diff >/dev/null; then echo "NOTE: patch.diff differs from the worktree diff; testing patch.diff on a clean worktree"; fi
+git checkout -- . && git apply $D/seed_out/patch.diff || { echo "patch.diff does not apply to HEAD"; exit 1; }
 cargo build --offline >/dev/null 2>&1 || { echo "BUILD FAILED"; exit 1; }
 bash $D/seed_out/demo.sh $D/target/debug/agrind >/dev/null 2>&1; CH=$?
 bash $D/seed_out/demo.sh /verif/build/target-repo/debug/agrind >/dev/null 2>&1; OR=$?
